@@ -99,7 +99,7 @@ impl Check for C16 {
         vec!["ErrorKind::Interrupted retry behaviour is not part of the statement and is not asserted".into()]
     }
     fn budget(t: Tier) -> usize {
-        t.pick(1500, 30_000)
+        t.pick(1500, 300_000)
     }
     fn gen(s: &mut Src, _t: Tier) -> Case {
         let program = small_program(s);
